@@ -262,19 +262,19 @@ def run(ck, progs):
     ck.rule("R03f", "every loop over msa->sequences that runs before the canonical sort covers all numseq records (no prefix of the input order is singled out)")
     for cfg, prog in progs.items():
         cg = CallGraph(prog)
-        r03a(ck, prog)
-        r03b(ck, prog)
+        ck.attempt(r03a, ck, prog)
+        ck.attempt(r03b, ck, prog)
         sub_before = len(ck.instances)
-        c01.r01b(ck, prog)
+        ck.attempt(c01.r01b, ck, prog)
         for i in ck.instances[sub_before:]:
             i["rule"] = "R03c"
         for v in ck.violations:
             if v["rule"] == "R01b":
                 v["rule"] = "R03c"
                 v["key"] = v["key"].replace("R01b", "R03c")
-        r03d(ck, prog, cg)
-        r03e(ck, prog, cg)
-        r03f(ck, prog, cg)
+        ck.attempt(r03d, ck, prog, cg)
+        ck.attempt(r03e, ck, prog, cg)
+        ck.attempt(r03f, ck, prog, cg)
     from ..controls import control_program
     cp = control_program(ck.work, "c03.c")
     from ..report import Check
